@@ -382,10 +382,12 @@ pub fn binding<T: Type>(out: &mut Out, rng: &mut Sm, inst: &Inst<T>, m: &T::Meas
         out.oracle(!r.failed_at.as_deref().unwrap_or("").contains("panic"), || format!("binding {} {}", inst.spec, label), || "panic".into());
         out.count("binding.cases");
     }
-    // a different algorithm identifier at the aggregators
-    let other: Inst<T> = Inst::new(inst.typ.clone(), &inst.spec, inst.sum_lw, inst.na, inst.np, inst.alg ^ 1);
-    let r = verify(out, &other, &honest_views(inst.na, &ctx, nonce, key), &rep.public, &rep.inputs, &no_vs, &no_msg);
-    out.oracle(r.failed_at.is_some(), || format!("binding {} algorithm-id", inst.spec), || "verification completed under another algorithm id".into());
+    // a different algorithm identifier at the aggregators: every byte of the identifier separates
+    for bit in [0u32, 9, 16, 20, 27, 31] {
+        let other: Inst<T> = Inst::new(inst.typ.clone(), &inst.spec, inst.sum_lw, inst.na, inst.np, inst.alg ^ (1 << bit));
+        let r = verify(out, &other, &honest_views(inst.na, &ctx, nonce, key), &rep.public, &rep.inputs, &no_vs, &no_msg);
+        out.oracle(r.failed_at.is_some(), || format!("binding {} algorithm-id {:#x} vs {:#x}", inst.spec, inst.alg, inst.alg ^ (1 << bit)), || "verification completed under another algorithm id".into());
+    }
 }
 
 /// C18 over the library's other XOF (`XofHmacSha256Aes128`, reachable through the generic constructor): the
@@ -638,6 +640,22 @@ fn extremes(out: &mut Out, rng: &mut Sm, thorough: bool) {
     }
     let im = Inst::new(MultihotCountVec::<Field128, PS>::new(3, 3, 2).unwrap(), &format!("mhot:3:{}:{}:2", bits_of(3), lw(3)), 0, 2, 1, 5);
     end_to_end(out, rng, &im, &[vec![true, true, true], vec![false, false, false]], &|r: &Vec<u128>| r[..] == [1, 1, 1]);
+    // rejection sampling inside the protocol: every third / fifth 8-byte block of every XOF stream is refused by
+    // the sampler (for Field128 when it is the high half of an element), in share expansion, proof shares, joint
+    // and query randomness alike
+    for every in [3usize, 5] {
+        rec::plant(Some((every, 8)));
+        let ic = Inst::new(Count::<Field64>::new(), "count", 0, 3, 2, 1);
+        end_to_end(out, rng, &ic, &[true, false, true], &|r: &u64| *r == 2);
+        let is = Inst::new(Sum::<Field64>::new(1000).unwrap(), &format!("sum:{}", bits_of(1000)), lw(1000), 2, 1, 2);
+        end_to_end(out, rng, &is, &[1000, 1, 500], &|r: &u64| *r == 1501);
+        let ih = Inst::new(Histogram::<Field128, PS>::new(5, 2).unwrap(), "hist:5:2", 0, 3, 2, 3);
+        end_to_end(out, rng, &ih, &[4, 4, 0], &|r: &Vec<u128>| r[..] == [1, 0, 0, 0, 2]);
+        let iv = Inst::new(SumVec::<Field128, PS>::new(7, 3, 2).unwrap(), &format!("svec:3:{}:{}:2", bits_of(7), lw(7)), 0, 2, 1, 4);
+        end_to_end(out, rng, &iv, &[vec![7, 0, 3], vec![1, 1, 1]], &|r: &Vec<u128>| r[..] == [8, 1, 4]);
+        rec::plant(None);
+        out.count("e2e.planted-rejections");
+    }
 }
 
 pub fn run(out: &mut Out, thorough: bool, seed: u64, prop: &str) {
@@ -741,6 +759,10 @@ pub fn run(out: &mut Out, thorough: bool, seed: u64, prop: &str) {
     }
     if prop == "C01" {
         extremes(out, &mut rng, thorough);
+        // the same honest reports are accepted when verification runs through the ping-pong topology
+        for i in 0..(if thorough { 8 } else { 3 }) {
+            crate::c12::prio3_pingpong(out, &mut rng, i);
+        }
     }
     if prop == "C02" {
         crate::c16::prio3_misuse(out, &mut rng, thorough);
@@ -754,6 +776,12 @@ pub fn run(out: &mut Out, thorough: bool, seed: u64, prop: &str) {
             independence(out, &mut rng, &i1, &true, &false);
             let h1 = Inst::new(Histogram::<Field128, PS>::new(5, 2).unwrap(), "hist:5:2", 0, 1, 2, 3);
             independence(out, &mut rng, &h1, &4, &1);
+            // encodings longer than one block of the joint-randomness part derivation (256 elements), with a
+            // remainder: every helper's part in the public share is still independent of the measurement
+            let big = Inst::new(Histogram::<Field128, PS>::new(600, 25).unwrap(), "hist:600:25", 0, 3, 1, 3);
+            independence(out, &mut rng, &big, &3, &577);
+            let bv = Inst::new(SumVec::<Field128, PS>::new(1, 300, 17).unwrap(), &format!("svec:300:1:{}:17", lw(1)), 0, 2, 1, 4);
+            independence(out, &mut rng, &bv, &vec![0u128; 300], &(0..300).map(|i| (i % 2) as u128).collect::<Vec<_>>());
             crate::pop::c17(out, &mut rng, thorough)
         }
         "C18" => {
